@@ -29,6 +29,7 @@ func propC15(w *World, r *Report) {
 	checkFindLookups(w, r)
 	checkLayoutPipeline(w, r)
 	checkBufReset(w, r)
+	RunKernFlags(w, r)
 }
 
 func checkFindLookups(w *World, r *Report) {
